@@ -557,8 +557,26 @@ def outer(a, b):
     return _np.outer(_arr(a), _arr(b))
 
 
-def multiply(a, b):
-    return _arr(a) * _arr(b)
+class _UFunc:
+    """binary numpy ufunc over object arrays: the call and .outer; any other ufunc method is outside the stand-in"""
+
+    def __init__(self, name, f):
+        self.__name__, self._f = name, f
+
+    def __call__(self, a, b):
+        return self._f(_arr(a), _arr(b))
+
+    def outer(self, a, b):
+        a, b = _arr(a), _arr(b)
+        return self._f(a.reshape(a.shape + (1,) * b.ndim), b)
+
+    def __getattr__(self, name):
+        raise Unsupported(f"numpy.{self.__name__}.{name}")
+
+
+multiply = _UFunc("multiply", lambda a, b: a * b)
+add = _UFunc("add", lambda a, b: a + b)
+subtract = _UFunc("subtract", lambda a, b: a - b)
 
 
 class _Linalg:
@@ -716,6 +734,27 @@ class _finfo:
 
 
 finfo = _finfo
+
+class _ObjDType:
+    """numpy scalar types (np.complex128, np.float64, ...) as the engine sees them: arrays of exact / symbolic values are object arrays, so
+    `arr.astype(np.complex128)`, `np.zeros(shape, np.complex128)` keep the entries as they are (A1: machine numbers are treated as mathematical ones)."""
+
+    dtype = _np.dtype(object)
+
+    def __init__(self, name):
+        self.__name__ = name
+
+    def __call__(self, x=0):
+        return norm(x)
+
+    def __repr__(self):
+        return f"<pyvc dtype {self.__name__}>"
+
+
+complex128 = _ObjDType("complex128")
+float64 = _ObjDType("float64")
+cdouble = complex128
+double = float64
 
 _SELF = sys.modules[__name__]
 
